@@ -615,12 +615,12 @@ bool exec_str_b(Ctx &c, const Op &op) {
     case S_FORMAT: {
         StrObj *x = pick(v, op.a), *y = pick(v, op.b);
         if (!x) { c.skipped = true; return true; }
-        unsigned fi = op.c % (sizeof FORMATS / sizeof FORMATS[0]), var = op.d % 4;
+        unsigned fi = op.c % (sizeof FORMATS / sizeof FORMATS[0]), var = op.d % 8;
         const char *fmt = FORMATS[fi];
         bool corrupt = (op.fault & F_CORRUPT) != 0;
         static const char *const BADF[] = {"{", "{} {", "{z}", "{&9}", "{} {} {}", "}{", "{.}", "{_"};
         if (corrupt) fmt = BADF[(op.fc & 0xFF) % (sizeof BADF / sizeof BADF[0])];
-        bool ascii = true; for (unsigned char ch : x->model) if (ch >= 0x80) ascii = false; for (unsigned char ch : y->model) if (ch >= 0x80) ascii = false;
+        bool ascii = var != 4 && var != 5; for (unsigned char ch : x->model) if (ch >= 0x80) ascii = false; for (unsigned char ch : y->model) if (ch >= 0x80) ascii = false;
         bool wf = strict_utf8(x->model.data(), x->model.size()) && strict_utf8(y->model.data(), y->model.size());
         bool prec = std::strchr(fmt, '.') != nullptr;
         note_sig(c, op, std::string("obj=") + cl(x) + ",arg2=" + cl(y) + ",fmt=" + std::to_string(fi) + (corrupt ? ",corrupted" : "") + (x == y ? ",self" : ""));
@@ -639,7 +639,11 @@ bool exec_str_b(Ctx &c, const Op &op) {
             case 0: new (mem) S(ST::format(fmt, *x->p(), *y->p())); break;
             case 1: new (mem) S(ST::format(ST::check_validity, fmt, *x->p(), *y->p())); break;
             case 2: new (mem) S(operator"" _stfmt(fmt, std::strlen(fmt))(*x->p(), *y->p())); break;
-            default: new (mem) S(ST::format(fmt, x->p()->c_str(), *y->p())); break;
+            case 3: new (mem) S(ST::format(fmt, x->p()->c_str(), *y->p())); break;
+            case 4: new (mem) S(ST::format(fmt, L"wide \u00e9\u20ac text, longer than the small limit", *y->p())); break;
+            case 5: new (mem) S(ST::format(fmt, std::u16string(u"u16 \u00e9 string beyond sixteen units"), (int)op.c - 70000)); break;
+            case 6: new (mem) S(ST::format(fmt, 3.25 + (double)(op.c % 1000), *x->p())); break;
+            default: new (mem) S(ST::format_latin_1(fmt, *x->p(), *y->p())); break;
             }
         });
         if (ex != EX_NONE && ex != EX_BAD_ALLOC) { if (x->model.size() >= 16) probe(c, PR_THROW_WITH_HEAP_TARGET); }
